@@ -38,7 +38,7 @@ CHECKS.update({
     ),
     "C08": (
         "Hypothesis-generated momentum batches / angles, cse on/off; numpy invariants of Lorentz transformations",
-        "Generated batches of time-like momenta (beta*gamma 1e-6..1e4, axis-aligned and generic directions) and angles;"
+        "Generated batches of time-like momenta (beta*gamma 1e-6..1e6, axis-aligned and generic directions) and angles;"
         " every identity of the statement is checked on the lambdified arrays in plain numpy with tolerances"
         " K*eps*gamma^2, incl. products through the library's einsum code and code-vs-as_explicit agreement.",
         "Trusts numpy linear algebra; momentum exactly at rest (0/0 in the general boost) is outside the domain.",
@@ -57,7 +57,7 @@ CHECKS.update({
         "Hypothesis-generated events and (sigma1, sigma2) grid points relative to the PDG Dalitz limits; mpmath oracle",
         "Events (sigma3, Kibble <= 0, indicator 1) and bounding-box points placed at drawn distances on both sides of the"
         " PDG limits (indicator iff between limits, else the caller's outside value), Kallen symmetry/factorisation in"
-        " doubles, exact rationals and symbolically.",
+        " doubles, exact rationals and symbolically; integer collinear events exactly on the boundary (Kibble = 0) must give 1.",
         "Points within 1e-9 relative of a limit or below double resolution of the degree-8 Kibble polynomial are"
         " labelled and not asserted either way.",
         "DESIGN.md §4 C20",
@@ -119,7 +119,7 @@ CHECKS.update({
 CHECKS.update({
     "C07": (
         "Hypothesis-generated isobar topologies (relabelled, renumbered, permuted, several per adapter) x generated"
-        " events; independent numpy boost-and-rotate reference + the library's own Dalitz closed form (differential)",
+        " events (rest frame of the decaying particle or boosted to a lab frame); independent numpy boost-and-rotate reference + the library's own Dalitz closed form (differential)",
         "For every registered topology the reference recomputes all invariant masses and helicity angles from the"
         " four-momenta along the documented chain of frames; the lambdified adapter output (cse on/off) is compared as"
         " unit vectors with condition-scaled tolerances, names defined by several topologies must agree, and in"
@@ -153,7 +153,7 @@ CHECKS.update({
     ),
     "C14": (
         "Hypothesis-generated instances of all 45 instantiable expression classes found by package introspection"
-        " (nested to depth 3) x substitution maps; metamorphic subs/doit commutation, equality/hash pairs, rebuild from"
+        " (nested to depth 3) x substitution maps (symbol, expression and attribute-value keys); metamorphic subs/doit commutation, sibling arguments, equality/hash pairs, rebuild from"
         " args, folded-vs-unfolded code generation",
         "Classes are discovered at run time (new classes get a generic recipe); every law of the statement is an"
         " executable oracle with structural comparison first and a numeric fallback at fixed points.",
@@ -208,7 +208,7 @@ CHECKS.update({
 CHECKS.update({
     "C13": (
         "Hypothesis RuleBasedStateMachine over dynamics-assignment histories (name / Particle / (transition,node) /"
-        " TwoBodyDecay / deprecated set_dynamics, public builders + probe builder) against a harness-side selection"
+        " TwoBodyDecay / deprecated set_dynamics, public builders + probe builder; builder-configuration rules) against a harness-side selection"
         " model; structural differential of chain components",
         "After each formulate every chain component must equal the dynamics-free component times the product of the"
         " modelled builder on that node's own variables (derived from the topology by harness code); probe atoms must"
